@@ -1131,3 +1131,185 @@ Theorem uniqb_sound : forall (lower : lbl -> lbl) (st : state) (n : oid), uniqb 
     key lower (ns_cs st n) (label st y) = key lower (ns_cs st n) (label st z) -> y = z.
 Proof. exact Proofs.C11W9Read.uniqb_sound. Qed.
 Print Assumptions uniqb_sound.
+
+(* ---- wave 11: the history corollary for MATRICES (Proofs/C11W11Mat.v).  A matrix is RESOLVED (canon_mat) when every
+   row taxon is the first member of the matrix' namespace matching its own label; that is what the memo-free by-label
+   migrate / reconstruct of a matrix establishes (canon_mat_after_import8); every later operation that is not a purge
+   and does not re-write that matrix object (touchedm8: new_sequence / []= / migrate / reconstruct on it, with or
+   without memo, and DataSet.unify_taxon_namespaces) keeps it resolved together with its rows (frame relation MF proved
+   for all 41 + 13 operations and BadKw); hence, for two resolved containers - trees or matrices - under one namespace,
+   labels equal under the case rule sit on ONE taxon in every later state. ---- *)
+From DV Require Import Proofs.C11W11Mat Proofs.C11W11Read Proofs.C11W11Examples.
+
+Theorem canon_mat_meaning : forall (lower : lbl -> lbl) (st : state) (m : oid),
+  canon_mat lower st m <->
+  (m < length (s_mats st) /\ m_ns (getmat st m) < s_nns st /\
+   forall y, In y (m_rows (getmat st m)) ->
+     first_match lower st (m_ns (getmat st m)) (ns_cs st (m_ns (getmat st m))) (label st y) = Some y).
+Proof. intros. split; intro H; exact H. Qed.
+Print Assumptions canon_mat_meaning.
+
+Theorem touchedm8_table : forall (j l t n d m k x : oid) (rk : rowkey) (u at_ : bool) (nsarg : option oid) (rows : list lbl)
+    (s : strat) (sc : schema) (trees : list (list lbl)),
+  (forall o, touchedm8 (BadKw o) j = touchedm8 (Op7 o) j)
+  /\ touchedm8 (Op7 (Base (NewSeq m x))) j = (j = m) /\ touchedm8 (Op7 (Base (SetRow m rk))) j = (j = m)
+  /\ touchedm8 (Op7 (Base (MigrateMat m n u))) j = (j = m) /\ touchedm8 (Op7 (Base (ReconstructMat m u))) j = (j = m)
+  /\ touchedm8 (Op7 (MigrateMatM m n u k)) j = (j = m) /\ touchedm8 (Op7 (ReconstructMatM m u k)) j = (j = m)
+  /\ touchedm8 (Op7 (Base (Unify d nsarg at_))) j = True
+  /\ touchedm8 (Op7 (Base (UpdateMat m))) j = False /\ touchedm8 (Op7 (Base (NewMat n))) j = False
+  /\ touchedm8 (Op7 (Base (DsNewMat d nsarg))) j = False /\ touchedm8 (Op7 (Base (DsReadFasta d nsarg rows))) j = False
+  /\ touchedm8 (Op7 (CopyMat m)) j = False /\ touchedm8 (Op7 (Base (DsAdd d (ObjMat m)))) j = False
+  /\ touchedm8 (Op7 (Base (Append l t s))) j = False /\ touchedm8 (Op7 (Base (MigrateTree t n u))) j = False
+  /\ touchedm8 (Op7 (Base (MigrateList l n u))) j = False /\ touchedm8 (Op7 (Base (NewTaxon n k))) j = False
+  /\ touchedm8 (Op7 (Base (DsReadTrees d sc u nsarg trees))) j = False.
+Proof. intros. repeat split. Qed.
+Print Assumptions touchedm8_table.
+
+Theorem canon_mat_after_import8 : forall (lower : lbl -> lbl) (x : xstate) (o : op8) (x' : xstate) (y : out) (n m : oid),
+  step8 lower x o = (x', y) -> succeeded y = true -> taxa_wf x -> imports8 x o = Some (RMat n [] m) ->
+  m < length (s_mats (x_st x')) -> n < s_nns (x_st x') -> canon_mat lower (x_st x') m.
+Proof. exact canon_mat_after_import8_l. Qed.
+Print Assumptions canon_mat_after_import8.
+
+Theorem canon_mat_kept_step8 : forall (lower : lbl -> lbl) (x : xstate) (o : op8) (m : oid),
+  taxa_wf x -> is_purge8 o = false -> ~ touchedm8 o m -> canon_mat lower (x_st x) m ->
+  canon_mat lower (x_st (fst (step8 lower x o))) m /\ getmat (x_st (fst (step8 lower x o))) m = getmat (x_st x) m.
+Proof. exact canon_mat_kept_step8_l. Qed.
+Print Assumptions canon_mat_kept_step8.
+
+Theorem quiet_hist_mat_meaning : forall (lower : lbl -> lbl) (x : xstate) (o : op8) (r : list op8) (m : oid),
+  (quiet_hist_mat lower x [] m <-> True)
+  /\ (quiet_hist_mat lower x (o :: r) m <->
+      (is_purge8 o = false /\ ~ touchedm8 o m /\ quiet_hist_mat lower (fst (step8 lower x o)) r m)).
+Proof. intros. split; split; intro H; exact H. Qed.
+Print Assumptions quiet_hist_mat_meaning.
+
+Theorem canon_mat_kept_history8 : forall (lower : lbl -> lbl) (ops : list op8) (x : xstate) (m : oid),
+  taxa_wf x -> canon_mat lower (x_st x) m -> quiet_hist_mat lower x ops m ->
+  canon_mat lower (x_st (run_state8 lower x ops)) m
+  /\ getmat (x_st (run_state8 lower x ops)) m = getmat (x_st x) m.
+Proof. exact canon_mat_kept_history8_l. Qed.
+Print Assumptions canon_mat_kept_history8.
+
+(* a container: a tree or a matrix *)
+Theorem container_meaning : forall (lower : lbl -> lbl) (st : state) (x : xstate) (ops : list op8) (t m : oid),
+  c_ns st (CTree t) = t_ns (gettree st t) /\ c_ns st (CMat m) = m_ns (getmat st m)
+  /\ c_taxa st (CTree t) = t_refs (gettree st t) /\ c_taxa st (CMat m) = m_rows (getmat st m)
+  /\ canon_c lower st (CTree t) = canon lower st t /\ canon_c lower st (CMat m) = canon_mat lower st m
+  /\ quiet_c lower x ops (CTree t) = quiet_hist lower x ops t /\ quiet_c lower x ops (CMat m) = quiet_hist_mat lower x ops m.
+Proof. intros. repeat split. Qed.
+Print Assumptions container_meaning.
+
+Theorem history_equal_labels_one_taxon_mat8 : forall (lower : lbl -> lbl) (ops : list op8) (x : xstate) (c1 c2 : cont),
+  taxa_wf x -> canon_c lower (x_st x) c1 -> canon_c lower (x_st x) c2 -> c_ns (x_st x) c1 = c_ns (x_st x) c2 ->
+  quiet_c lower x ops c1 -> quiet_c lower x ops c2 ->
+  let st' := x_st (run_state8 lower x ops) in
+  forall y1 y2, In y1 (c_taxa st' c1) -> In y2 (c_taxa st' c2) ->
+    key lower (ns_cs st' (c_ns st' c1)) (label st' y1) = key lower (ns_cs st' (c_ns st' c1)) (label st' y2) ->
+    y1 = y2.
+Proof. exact history_equal_labels_one_taxon_mat8_l. Qed.
+Print Assumptions history_equal_labels_one_taxon_mat8.
+
+Theorem canon_matb_sound : forall (lower : lbl -> lbl) (st : state) (m : oid), canon_matb lower st m = true -> canon_mat lower st m.
+Proof. exact Proofs.C11W11Mat.canon_matb_sound. Qed.
+Print Assumptions canon_matb_sound.
+
+Theorem matrix_history_example :
+  taxa_wfb w9_xm = true /\ imports8 w9_xm (Op7 (Base (MigrateMat 0 1 true))) = Some (RMat 1 [] 0)
+  /\ step8 w8_lower w9_xm (Op7 (Base (MigrateMat 0 1 true))) = (w11_x, OUnit)
+  /\ taxa_wfb w11_x = true
+  /\ canon_mat w8_lower (x_st w11_x) 0 /\ canon w8_lower (x_st w11_x) 1
+  /\ m_ns (getmat (x_st w11_x) 0) = t_ns (gettree (x_st w11_x) 1)
+  /\ w11_ops = [Op7 (Base NewDs); Op7 (Base (Attach 0 1)); Op7 (Base (DsAdd 0 (ObjMat 0))); Op7 (Base (DsNewList 0 (Some 0)));
+                Op7 (Base (DsNewList 0 (Some 1))); Op7 (Base (DsReadFasta 0 (Some 2) [0; 1]));
+                Op7 (Base (DsReadFasta 0 None [0; 1]))]
+  /\ quiet_hist_mat w8_lower w11_x w11_ops 0 /\ quiet_hist w8_lower w11_x w11_ops 1
+  /\ members (x_st w11_y) 1 = [2; 3; 6]
+  /\ m_rows (getmat (x_st w11_y) 0) = [2] /\ t_refs (gettree (x_st w11_y) 1) = [2; 3]
+  /\ canon_matb w8_lower (x_st w11_y) 1 = true.
+Proof. exact w11_mat_history_example_l. Qed.
+Print Assumptions matrix_history_example.
+
+(* ---- wave 11: the two read theorems for the DataSet.read operations of the model (Proofs/C11W11Read.v): DsReadTrees
+   (Newick / NEXUS tree source) and DsReadFasta.  s1 is the state after the namespace choice of the read
+   (ds_read_namespace_choice: the taxa and the members of every namespace as before, and s1 = st unless the data set
+   is un-attached and no namespace is given - then a new empty namespace has been made). ---- *)
+Theorem ds_read_namespace_choice : forall (st : state) (d : oid) (nsarg : option oid) (s1 : state) (n : oid),
+  ds_read_ns st d nsarg = Some (s1, n) ->
+  s_lab s1 = s_lab st /\ s_mem s1 = s_mem st /\ s_nns st <= s_nns s1
+  /\ (d_att (getds st d) <> None \/ nsarg <> None -> s1 = st).
+Proof.
+  intros st d nsarg s1 n H. destruct (ds_read_ns_tables _ _ _ _ _ H) as [A [B C]].
+  split; [exact A|]. split; [exact B|]. split; [exact C|]. exact (ds_read_ns_unchanged _ _ _ _ _ H).
+Qed.
+Print Assumptions ds_read_namespace_choice.
+
+Theorem ds_read_keeps_no_duplicates : forall (lower : lbl -> lbl) (st : state) (d : oid) (sc : schema) (cskw : bool)
+    (nsarg : option oid) (trees : list (list lbl)) (s1 : state) (n : oid),
+  valid_ds st d && valid_nsopt st nsarg = true -> ds_read_ns st d nsarg = Some (s1, n) ->
+  let st' := fst (step lower st (DsReadTrees d sc cskw nsarg trees)) in
+  (forall y, In y (members s1 n) -> y < length (s_lab s1)) ->
+  (forall y z, In y (members s1 n) -> In z (members s1 n) ->
+     key lower (ns_cs s1 n) (label s1 y) = key lower (ns_cs s1 n) (label s1 z) -> y = z) ->
+  (forall y z, In y (members st' n) -> In z (members st' n) ->
+     key lower (ns_cs st' n) (label st' y) = key lower (ns_cs st' n) (label st' z) -> y = z).
+Proof. exact ds_read_keeps_uniq_l. Qed.
+Print Assumptions ds_read_keeps_no_duplicates.
+
+Theorem ds_read_without_duplicates_resolved : forall (lower : lbl -> lbl) (st : state) (d : oid) (sc : schema) (cskw : bool)
+    (nsarg : option oid) (trees : list (list lbl)) (s1 : state) (n tr : oid),
+  Closed st -> (forall k y, In y (members st k) -> y < length (s_lab st)) ->
+  valid_ds st d && valid_nsopt st nsarg = true -> ds_read_ns st d nsarg = Some (s1, n) ->
+  (forall y z, In y (members s1 n) -> In z (members s1 n) ->
+     key lower (ns_cs s1 n) (label s1 y) = key lower (ns_cs s1 n) (label s1 z) -> y = z) ->
+  n < s_nns s1 ->
+  let st' := fst (step lower st (DsReadTrees d sc cskw nsarg trees)) in
+  tr < length (s_trees st') -> t_ns (gettree st' tr) = n -> canon lower st' tr.
+Proof. exact ds_read_without_duplicates_resolved_l. Qed.
+Print Assumptions ds_read_without_duplicates_resolved.
+
+Theorem ds_readfasta_keeps_no_duplicates : forall (lower : lbl -> lbl) (st : state) (d : oid) (nsarg : option oid)
+    (rows : list lbl) (s1 : state) (n : oid),
+  valid_ds st d && valid_nsopt st nsarg = true -> ds_read_ns st d nsarg = Some (s1, n) ->
+  let st' := fst (step lower st (DsReadFasta d nsarg rows)) in
+  (forall y, In y (members s1 n) -> y < length (s_lab s1)) ->
+  (forall y z, In y (members s1 n) -> In z (members s1 n) ->
+     key lower (ns_cs s1 n) (label s1 y) = key lower (ns_cs s1 n) (label s1 z) -> y = z) ->
+  (forall y z, In y (members st' n) -> In z (members st' n) ->
+     key lower (ns_cs st' n) (label st' y) = key lower (ns_cs st' n) (label st' z) -> y = z).
+Proof. exact ds_readfasta_keeps_uniq_l. Qed.
+Print Assumptions ds_readfasta_keeps_no_duplicates.
+
+Theorem ds_readfasta_without_duplicates_resolved : forall (lower : lbl -> lbl) (st : state) (d : oid) (nsarg : option oid)
+    (rows : list lbl) (s1 : state) (n m : oid),
+  Closed st -> (forall k y, In y (members st k) -> y < length (s_lab st)) ->
+  valid_ds st d && valid_nsopt st nsarg = true -> ds_read_ns st d nsarg = Some (s1, n) ->
+  (forall y z, In y (members s1 n) -> In z (members s1 n) ->
+     key lower (ns_cs s1 n) (label s1 y) = key lower (ns_cs s1 n) (label s1 z) -> y = z) ->
+  n < s_nns s1 ->
+  let st' := fst (step lower st (DsReadFasta d nsarg rows)) in
+  m < length (s_mats st') -> m_ns (getmat st' m) = n -> canon_mat lower st' m.
+Proof. exact ds_readfasta_without_duplicates_resolved_l. Qed.
+Print Assumptions ds_readfasta_without_duplicates_resolved.
+
+Theorem ds_read_without_duplicates_example :
+  let st := x_st w11_y in
+  closedb st = true /\ taxa_wfb w11_y = true /\ uniqb w8_lower st 1 = true
+  /\ valid_ds st 0 && valid_nsopt st None = true /\ ds_read_ns st 0 None = Some (st, 1) /\ s_nns st = 3
+  /\ length (s_trees st) = 4 /\ length (s_mats st) = 2
+  /\ snd (step w8_lower st w11_rd) = OUnit
+  /\ map (fun t => (t_ns (gettree (fst (step w8_lower st w11_rd)) t), t_refs (gettree (fst (step w8_lower st w11_rd)) t))) [4; 5]
+     = [(1, [2; 3]); (1, [3; 6])]
+  /\ snd (step w8_lower st w11_rf) = OUnit
+  /\ getmat (fst (step w8_lower st w11_rf)) 2 = mkMat 1 [3; 6].
+Proof. exact w11_ds_read_example_l. Qed.
+Print Assumptions ds_read_without_duplicates_example.
+
+(* why new_sequence / []= are in touchedm8: without "~ touchedm8 o m" the statement canon_mat_kept_step8 is false
+   (a member that is not the first one matching its label is accepted as a new row) *)
+Theorem canon_mat_kept_without_untouched_refuted :
+  exists (x : xstate) (o : op8) (m : oid),
+    taxa_wf x /\ is_purge8 o = false /\ o = Op7 (Base (NewSeq m 2)) /\ snd (step8 w8_lower x o) = OUnit
+    /\ canon_mat w8_lower (x_st x) m /\ ~ canon_mat w8_lower (x_st (fst (step8 w8_lower x o))) m.
+Proof. exact w11_touched_needed_l. Qed.
+Print Assumptions canon_mat_kept_without_untouched_refuted.
